@@ -278,7 +278,10 @@ def gen_subs(rng, views, mode):
             regs += [('nested', k)] * rng.choice([1, 2])
     rng.shuffle(regs)
     for kind, k in regs:
-        spec[kind].append([k, tag, False])
+        # mode 'raising': some method subscribers raise TypeError after having been called (the call is logged first): the dispatch must
+        # stop there -- later subscribers of that call are not reached, nobody is called twice
+        raises = (mode == 'raising' and kind == 'methods' and rng.random() < 0.2)
+        spec[kind].append([k, tag, raises])
         tag += 1
     return spec
 
@@ -303,6 +306,8 @@ def expected_log(h, views, subs):
                     kw[n] = a
             for s in subs_of('methods', key):
                 log.append(['M', key, s[1], m['id'], pos, sorted([[n, a] for n, a in kw.items()])])
+                if s[2]:
+                    break           # a raising subscriber ends the dispatch of this call
         elif k == 'prop':
             tname = views[h_type(h, m['id'])]['name'] if h_type(h, m['id']) is not None else None
             key = '%s_%s' % (m.get('etype'), m['prop'])
